@@ -171,12 +171,12 @@ Module C07NavExample.
   Import C07Example.
   Definition cfg1 : config :=
     match build POpenID [WithAuthorizationCodeGrant; WithJAR; WithJARByReference] with Some c => c | None => base_config POpenID end.
-  Definition outer : params := mkParams 0 "" "" "code" "openid" "" "" PkEmpty "" 0 "" 0 "" [].
+  Definition outer : params := mkParams 0 "" "" "code" "openid" "" "" PkEmpty "" 0 "" 0 "" [] None.
   Definition jc_enc : jcfg := mkJCfg [AES256] true [AES256] 0%Z.        (* JWE enabled, 'none' not allowed *)
   Definition jcl1 : jclient := mkJClient [mkJwk 611 AES256 511] None None.
   Definition nested (redirect : string) : req_object :=
     mkRO EncNone (SigBy 511) AES256 611 1 true (Some 300%Z) (Some (-10)%Z) (Some (-10)%Z) true 1 true false
-         (mkParams 0 redirect "" "code" "openid" "st-in" "n-in" PkEmpty "" 0 "" 0 "" []).
+         (mkParams 0 redirect "" "code" "openid" "st-in" "n-in" PkEmpty "" 0 "" 0 "" [] None).
   Definition unsigned_in_jwe : req_object :=
     mkRO EncOk SigEmpty ANone 0 0 false None None None false 1 false false inner.
 
